@@ -205,38 +205,38 @@ def _worker_A(job):
     except Exception as ex:
         out["err"] = "%s: %s" % (type(ex).__name__, ex)
         return out
-    signal.signal(signal.SIGALRM, _alarm)
+    signal.signal(signal.SIGVTALRM, _alarm)
     first = {}
     try:
-        signal.setitimer(signal.ITIMER_REAL, 20 + 0.05 * len(hists))
+        signal.setitimer(signal.ITIMER_VIRTUAL, 10 + 0.02 * len(hists))
         res = play_A_trie(flow_configs, cfg, hists)
-        signal.setitimer(signal.ITIMER_REAL, 0)
+        signal.setitimer(signal.ITIMER_VIRTUAL, 0)
         out["calls"] += len(res)
         for k, h in enumerate(hists):
             keys = [tuple(tuple(e) for e in h[:n + 1]) for n in range(len(h))]
             out["obs"][k] = [res[key][0] for key in keys]
             first[k] = [res[key][1] for key in keys]
     except Hang:
-        out["hang"] = "first pass did not finish within %ds" % int(20 + 0.05 * len(hists))
+        out["hang"] = "first pass did not finish within %ds of CPU time" % int(10 + 0.02 * len(hists))
         return out
     finally:
-        signal.setitimer(signal.ITIMER_REAL, 0)
+        signal.setitimer(signal.ITIMER_VIRTUAL, 0)
     # second pass: same flow_configs, every history again from scratch, seeded permutation
     order = list(range(len(hists)))
     random.Random(seed * 7919 + prog["id"]).shuffle(order)
     try:
         for k in order[:limit]:
-            signal.setitimer(signal.ITIMER_REAL, 5)
+            signal.setitimer(signal.ITIMER_VIRTUAL, 5)
             obs2, full2 = play_A(flow_configs, cfg, hists[k])
-            signal.setitimer(signal.ITIMER_REAL, 0)
+            signal.setitimer(signal.ITIMER_VIRTUAL, 0)
             out["calls"] += len(obs2)
             if full2 != first[k]:
                 n = next(i for i in range(len(full2)) if full2[i] != first[k][i])
                 out["dep"].append({"hist": hists[k], "at": n + 1, "first": first[k][n], "second": full2[n]})
     except Hang:
-        out["hang"] = "second pass: a history did not finish within 5s"
+        out["hang"] = "second pass: a history did not finish within 5s of CPU time"
     finally:
-        signal.setitimer(signal.ITIMER_REAL, 0)
+        signal.setitimer(signal.ITIMER_VIRTUAL, 0)
     return out
 
 
@@ -337,30 +337,30 @@ def _worker_B(job):
     except Exception as ex:
         out["err"] = "%s: %s" % (type(ex).__name__, ex)
         return out
-    signal.signal(signal.SIGALRM, _alarm)
+    signal.signal(signal.SIGVTALRM, _alarm)
     first = []
     try:
         for (u, v) in scripts:
-            signal.setitimer(signal.ITIMER_REAL, 30)
+            signal.setitimer(signal.ITIMER_VIRTUAL, 12)
             hist, obs, stream, fail = play_B(app, script, prog, u, v)
-            signal.setitimer(signal.ITIMER_REAL, 0)
+            signal.setitimer(signal.ITIMER_VIRTUAL, 0)
             first.append(stream)
             out["cases"].append({"u": u, "v": v, "h": hist, "o": obs, "fail": fail})
         order = list(range(len(scripts)))
         random.Random(seed * 104729 + prog["id"]).shuffle(order)
         for k in order:
-            signal.setitimer(signal.ITIMER_REAL, 30)
+            signal.setitimer(signal.ITIMER_VIRTUAL, 12)
             hist, obs, stream, fail = play_B(app, script, prog, scripts[k][0], scripts[k][1])
-            signal.setitimer(signal.ITIMER_REAL, 0)
+            signal.setitimer(signal.ITIMER_VIRTUAL, 0)
             if stream != first[k]:
                 n = next((i for i in range(min(len(stream), len(first[k]))) if stream[i] != first[k][i]),
                          min(len(stream), len(first[k])))
                 out["dep"].append({"u": scripts[k][0], "v": scripts[k][1], "at": n + 1,
                                    "first": first[k][n:n + 3], "second": stream[n:n + 3]})
     except Hang:
-        out["hang"] = "generate_events did not return within 30s"
+        out["hang"] = "generate_events did not return within 12s of CPU time"
     finally:
-        signal.setitimer(signal.ITIMER_REAL, 0)
+        signal.setitimer(signal.ITIMER_VIRTUAL, 0)
     return out
 
 
